@@ -2020,8 +2020,8 @@ def _disp_compare(hs, item, step, model, q, variant, raw, t0, t1, sender, port):
                               'times' % (rid, len(es)), item, obs_desc, exp_desc)
     for c in must:
         if c.rid not in byrid:
-            tm = [x for x in model if x.kind == 'tmpl' and x.enabled
-                  and not x.unspec and x.path == q]
+            tm = [x for x in model if x.kind == 'tmpl' and x.path == q
+                  and (x.enabled or x.unspec)]
             if variant == 'noargs' and tm:
                 key = 'template-short-message'
             elif removal:
